@@ -1097,6 +1097,18 @@ func schemaLaw20(c case20, y string) (vs []verdict20, nStr, nInt int) {
 					continue
 				}
 				switch sp.typ {
+				case "int-or-string":
+					// FormatNonStringStyle must not touch such a position: the written scalar reads back with the
+					// typed value it had (a number stays a number, a quoted number stays a string)
+					nStr++
+					want, err := jsonValue20("v: " + scalarText20(x) + "\n")
+					if err != nil {
+						break
+					}
+					if wm, ok := want.(map[string]interface{}); ok && !reflect.DeepEqual(wm["v"], site.val) {
+						vs = append(vs, verdict20{"schema_quote", "schema/int-or-string-retyped",
+							fmt.Sprintf("%s: int-or-string scalar %s is read back as %#v (was %#v)", sp.path, scalarText20(x), site.val, wm["v"])})
+					}
 				case "string":
 					nStr++
 					if s, isStr := site.val.(string); !isStr || s != x.Value {
@@ -1118,6 +1130,18 @@ func schemaLaw20(c case20, y string) (vs []verdict20, nStr, nInt int) {
 	return vs, nStr, nInt
 }
 
+// scalarText20: a scalar as it is written (plain, or re-quoted the way its style says)
+func scalarText20(x *yaml.Node) string {
+	switch {
+	case x.Style&yaml.DoubleQuotedStyle != 0:
+		b, _ := json.Marshal(x.Value)
+		return string(b)
+	case x.Style&yaml.SingleQuotedStyle != 0:
+		return "'" + strings.ReplaceAll(x.Value, "'", "''") + "'"
+	}
+	return x.Value
+}
+
 type schemaSite20 struct {
 	path string // dotted; "*" = every key of a mapping, "[]" = every element
 	typ  string
@@ -1128,7 +1152,13 @@ func schemaSites20(kind, api string) []schemaSite20 {
 	switch {
 	case kind == "ConfigMap" && api == "v1":
 		sites = append(sites, schemaSite20{"data.*", "string"})
+	case kind == "CustomResourceDefinition" && api == "apiextensions.k8s.io/v1":
+		base := "spec.versions.[].schema.openAPIV3Schema.properties.*."
+		sites = append(sites, schemaSite20{base + "minimum", "number"}, schemaSite20{base + "maximum", "number"},
+			schemaSite20{base + "multipleOf", "number"}, schemaSite20{base + "maxLength", "integer"},
+			schemaSite20{base + "exclusiveMinimum", "boolean"}, schemaSite20{base + "description", "string"})
 	case kind == "Service" && api == "v1":
+		sites = append(sites, schemaSite20{"spec.ports.[].targetPort", "int-or-string"})
 		sites = append(sites, schemaSite20{"spec.ports.[].port", "integer"}, schemaSite20{"spec.ports.[].name", "string"},
 			schemaSite20{"spec.publishNotReadyAddresses", "boolean"}, schemaSite20{"spec.sessionAffinity", "string"})
 	case kind == "Secret" && api == "v1":
@@ -1136,6 +1166,10 @@ func schemaSites20(kind, api string) []schemaSite20 {
 	case (kind == "Deployment" || kind == "StatefulSet") && api == "apps/v1":
 		sites = append(sites,
 			schemaSite20{"spec.replicas", "integer"},
+			schemaSite20{"spec.strategy.rollingUpdate.maxSurge", "int-or-string"},
+			schemaSite20{"spec.strategy.rollingUpdate.maxUnavailable", "int-or-string"},
+			schemaSite20{"spec.template.spec.containers.[].livenessProbe.httpGet.port", "int-or-string"},
+			schemaSite20{"spec.template.spec.containers.[].readinessProbe.httpGet.port", "int-or-string"},
 			schemaSite20{"spec.paused", "boolean"},
 			schemaSite20{"spec.minReadySeconds", "integer"},
 			schemaSite20{"spec.template.spec.hostNetwork", "boolean"},
@@ -1182,7 +1216,7 @@ func siteType20(s *openapi.ResourceSchema) string {
 	}
 	t := s.Schema.Type[0]
 	if t == "string" && s.Schema.Format == "int-or-string" {
-		return ""
+		return "int-or-string"
 	}
 	return t
 }
